@@ -48,6 +48,8 @@ LEVEL = 'exploration'
 
 FF_NAMES = ('charmm', 'amber', 'gromos')
 FOREIGN = 'Xx'          # an element no block atom can have (block elements are one ASCII letter)
+# two-letter elements that begin with the letter of a block element: selenium where sulfur belongs, chlorine for carbon ...
+TWO_LETTER = {'H': 'HG', 'C': 'CL', 'N': 'NA', 'O': 'OS', 'S': 'SE', 'P': 'PT'}
 MAX_ATOMS = {'quick': 40, 'thorough': 70}
 
 # Size bounds (number of block atoms) per presentation.  They exist because the
@@ -189,7 +191,20 @@ def layout_residue(spec):
     for j, extra in enumerate(spec.get('extras', ())):
         anchor_pool = [a['tag'] for a in atoms]
         anchor = anchor_pool[extra['at'] % len(anchor_pool)]
-        if extra['el'] == 'foreign':
+        if extra['el'] == 'foreign' and extra.get('two_letter'):
+            # the element of a removed block atom that was bonded to the anchor (the foreign atom sits where that atom
+            # belongs), else the anchor's own element -- with a second letter: still an element no block atom has
+            letter = None
+            if anchor[0] == 'b':
+                for u, v in info.edges:
+                    other = v if u == anchor[1] else u if v == anchor[1] else None
+                    if other is not None and other in removed:
+                        letter = info.elements[other]
+                        break
+            if letter is None:
+                letter = next(a['element'] for a in atoms if a['tag'] == anchor)[0]
+            element = TWO_LETTER.get(letter, FOREIGN)
+        elif extra['el'] == 'foreign':
             element = FOREIGN
         else:
             element = info.elements[extra['el'] % info.n]
@@ -346,7 +361,7 @@ def expected_mcs(rec):
     if rec['foreign_only'] or rec['n_extras'] == 0:
         return lower, False
     graph = residue_graph(rec)
-    foreign = {k for k, e in rec['elements'].items() if e == FOREIGN}
+    foreign = {k for k, e in rec['elements'].items() if e == FOREIGN or e in TWO_LETTER.values()}
     block_count = {}
     for e in info.elements:
         block_count[e] = block_count.get(e, 0) + 1
@@ -641,7 +656,8 @@ def _residue_strategy(tier, key, kind):
             element = st.just('foreign')
             count = _max_extras(info.n)
         name = st.one_of(st.none(), st.none(), st.integers(0, info.n - 1)) if intensity == 'full' else st.none()
-        extra = st.fixed_dictionaries({'at': st.integers(0, info.n + 2), 'el': element, 'name': name})
+        extra = st.fixed_dictionaries({'at': st.integers(0, info.n + 2), 'el': element, 'name': name,
+                                       'two_letter': st.booleans()})
         fields['extras'] = st.lists(extra, min_size=1, max_size=count)
     pres = _pres_strategy(info, intensity)
     fields['pres'] = st.tuples(pres, pres).map(list)
